@@ -118,9 +118,11 @@ CHECKS = {
              "harness records per call which sites were reached and which probes were false (a false probe is written to a side file first, "
              "so it survives an abort). TLC requires no false probe on any record of the rope programs, the wild/multi-byte trees and the "
              "concurrent schedules, and every site to be reached in every run. The lifetime-extended CachedSource borrow is covered by the "
-             "write-once monitor of C18.",
-        note=COMMON_NOTE + " TLA+ cannot see memory: what is decided is 'every executed unsafe operation met its stated precondition'; no sanitizer run is registered.",
-        technique="precondition probes at unsafe sites + TLC trace validation (per-site coverage enforced)",
+             "write-once monitor of C18. The same programs are executed a second time by a harness built with AddressSanitizer (callbacks keep "
+             "every borrowed chunk, name and content until the stream call returns and read them then); a sanitizer report ends the worker with a "
+             "distinct exit status that the trace records, and TLC requires every program to reach its end without one.",
+        note=COMMON_NOTE + " TLA+ cannot see memory: what is decided is 'every executed unsafe operation met its stated precondition' and 'no AddressSanitizer report on any executed program'.",
+        technique="precondition probes at unsafe sites + AddressSanitizer re-execution of the same programs + TLC trace validation (per-site coverage enforced)",
     ),
     "C12": dict(
         text="encode_mappings / decode_mappings are run on every mapping sequence of a small exhaustive domain, on big-value pairs per field, "
